@@ -304,11 +304,14 @@ EmptyApply(c, s, o) ==
                \cup {[t |-> k.t, part |-> "info", ref |-> 0 - k.id] : k \in ds}
                \cup {[t |-> j.t, part |-> "info", ref |-> 0 - j.id] : j \in dj}
                \cup {[t |-> x.t, part |-> "files", ref |-> x.o] : x \in dor}
-  IN IF o.consent = "no" THEN [st |-> s, out |-> [cmd |-> "empty", opts |-> o, exit |-> "ok", printed |-> {}]]
-     ELSE IF o.dry THEN [st |-> s, out |-> [cmd |-> "empty", opts |-> o, exit |-> "ok", printed |-> would]]
+      \* KNOWN DEVIATION (C14, pinned by the repository's own test_with_dry_run): the dry run also prints the payload
+      \* path of an info file that has no payload, although the real run has nothing to remove there
+      dev == {[t |-> k.t, part |-> "files", ref |-> 0 - k.id] : k \in ds} \cup {[t |-> j.t, part |-> "files", ref |-> 0 - j.id] : j \in dj}
+  IN IF o.consent = "no" THEN [st |-> s, out |-> [cmd |-> "empty", opts |-> o, exit |-> "any", printed |-> {}, printedDev |-> {}]]
+     ELSE IF o.dry THEN [st |-> s, out |-> [cmd |-> "empty", opts |-> o, exit |-> "ok", printed |-> would, printedDev |-> would \cup dev]]
      ELSE [st |-> [s EXCEPT !.items = @ \ di, !.strays = @ \ ds, !.junk = @ \ dj, !.orph = @ \ dor,
                             !.purged = @ \cup {i.o : i \in di} \cup {x.o : x \in dor}],
-           out |-> [cmd |-> "empty", opts |-> o, exit |-> "ok", printed |-> {}]]
+           out |-> [cmd |-> "empty", opts |-> o, exit |-> "ok", printed |-> {}, printedDev |-> {}]]
 Empty(o) == LET r == EmptyApply(cfg, St, o) IN SetSt(r.st) /\ out' = r.out /\ UNCHANGED cfg
 
 -----------------------------------------------------------------------------
